@@ -318,7 +318,8 @@ pub fn gen(which: &str, rng: &mut Rng, count: usize, thorough: bool, out: &mut V
             if !mine(&mut idx) {
                 continue;
             }
-            let len = *rng.pick(&[0usize, 4, 8, 20, 32]);
+            // every residue of the length, the decoders' own special lengths and their neighbours
+            let len = *rng.pick(&[0usize, 1, 2, 3, 4, 5, 7, 8, 9, 16, 19, 20, 21, 31, 32, 33]);
             let v = shaped_value(rng, kind, len);
             out.push(format!("attr op=dec k={} ty={:04x} v={}", kind, kind_code(other), hex_or_dash(&v)));
         }
@@ -326,7 +327,7 @@ pub fn gen(which: &str, rng: &mut Rng, count: usize, thorough: bool, out: &mut V
             if !mine(&mut idx) {
                 continue;
             }
-            let len = *rng.pick(&[0usize, 4, 8, 20, 32]);
+            let len = *rng.pick(&[0usize, 1, 2, 3, 4, 5, 7, 8, 9, 16, 19, 20, 21, 31, 32, 33]);
             let v = shaped_value(rng, kind, len);
             out.push(format!("attr op=dec k={} ty={:04x} v={}", kind, rng.next() as u16, hex_or_dash(&v)));
         }
